@@ -166,7 +166,7 @@ func cmdCheck(args []string) int {
 	noReplay := fs.Bool("no-replay", false, "skip native replay (development)")
 	debug := fs.Bool("debug", false, "debug output")
 	solver := fs.String("solver", "z3", "z3, z3-new or cvc5")
-	timeout := fs.Int("timeout", 30000, "per-query solver timeout (ms)")
+	timeout := fs.Int("timeout", 120000, "per-query solver timeout (ms)")
 	maxSteps := fs.Int("max-steps", 20000000, "interpreter steps per path")
 	unwind := fs.Int("unwind", 64, "default unwinding bound (symbolic decisions per block per frame)")
 	maxPaths := fs.Int("max-paths", 200000, "paths per harness")
@@ -336,13 +336,29 @@ func cmdCheck(args []string) int {
 	replayStart := time.Now()
 	if !*noReplay {
 		os.MkdirAll(workDir, 0o755)
+		// one test binary per harness package, built and run in parallel
+		type dirRes struct {
+			dir string
+			rs  []*replayResult
+			err error
+		}
+		ch := make(chan dirRes, len(casesByDir))
+		sem := make(chan struct{}, 4)
 		for dir, cs := range casesByDir {
-			rs, err := runNativeReplay(prop, dir, cs, overlay)
-			if err != nil {
-				replayErr[dir] = err.Error()
+			go func(dir string, cs []replayCase) {
+				sem <- struct{}{}
+				defer func() { <-sem }()
+				rs, err := runNativeReplay(prop, dir, cs, overlay)
+				ch <- dirRes{dir, rs, err}
+			}(dir, cs)
+		}
+		for range casesByDir {
+			dr := <-ch
+			if dr.err != nil {
+				replayErr[dr.dir] = dr.err.Error()
 				continue
 			}
-			for _, r := range rs {
+			for _, r := range dr.rs {
 				results[r.Label] = r
 			}
 		}
@@ -712,31 +728,19 @@ type replayResult struct {
 // binary (a panic in a goroutine spawned by the code under test cannot be
 // recovered by the harness runner) the crash is attributed to that case and
 // the remaining cases are run in a fresh binary.
+// runNativeReplay builds the package's test binary once (go test -c with the
+// harness overlay) and runs every case in its own process, so that cases
+// cannot influence each other and a crash of the real code (goroutine panic,
+// fatal error) is attributed to exactly the case that caused it.
 func runNativeReplay(prop, dir string, cases []replayCase, overlay map[string][]byte) ([]*replayResult, error) {
-	var all []*replayResult
-	for len(all) < len(cases) {
-		res, crashed, err := runNativeReplayOnce(prop, dir, cases[len(all):], overlay)
-		if err != nil {
-			if len(all) == 0 {
-				return nil, err
-			}
-			break
-		}
-		all = append(all, res...)
-		if !crashed || len(res) == 0 {
-			break
-		}
-	}
-	return all, nil
-}
-
-func runNativeReplayOnce(prop, dir string, cases []replayCase, overlay map[string][]byte) ([]*replayResult, bool, error) {
 	wd := filepath.Join(workDir, fmt.Sprintf("%s-%s-%d", prop, sanitize(dir), os.Getpid()))
 	os.RemoveAll(wd)
 	if err := os.MkdirAll(wd, 0o755); err != nil {
-		return nil, false, err
+		return nil, err
 	}
-	defer os.RemoveAll(wd)
+	if os.Getenv("GOSYM_KEEP_WORK") == "" {
+		defer os.RemoveAll(wd)
+	}
 	// materialise overlay files
 	repl := map[string]string{}
 	i := 0
@@ -744,47 +748,66 @@ func runNativeReplayOnce(prop, dir string, cases []replayCase, overlay map[strin
 		real := filepath.Join(wd, fmt.Sprintf("ov%d_%s", i, filepath.Base(virt)))
 		i++
 		if err := os.WriteFile(real, data, 0o644); err != nil {
-			return nil, false, err
+			return nil, err
 		}
 		repl[virt] = real
 	}
 	ovj, _ := json.Marshal(map[string]interface{}{"Replace": repl})
 	ovPath := filepath.Join(wd, "overlay.json")
 	os.WriteFile(ovPath, ovj, 0o644)
-	casePath := filepath.Join(wd, "cases.json")
-	cj, _ := json.Marshal(cases)
-	os.WriteFile(casePath, cj, 0o644)
-	cmd := exec.Command("go", "test", "-tags", "verif", "-vet=off", "-count=1", "-timeout", "10m", "-overlay", ovPath, "-run", "^TestVerifReplay$", "-v", "./"+dir)
-	cmd.Dir = repoDir
-	cmd.Env = append(os.Environ(), "GOFLAGS=-mod=mod", "GOPROXY=off", "GOSUMDB=off", "GOTOOLCHAIN=local", "VERIF_REPLAY="+casePath)
-	var outb bytes.Buffer
-	cmd.Stdout = &outb
-	cmd.Stderr = &outb
-	runErr := cmd.Run()
-	var res []*replayResult
-	for _, line := range strings.Split(outb.String(), "\n") {
-		if strings.HasPrefix(line, "VERIF-CASE ") {
-			var r replayResult
-			if err := json.Unmarshal([]byte(strings.TrimPrefix(line, "VERIF-CASE ")), &r); err == nil {
-				res = append(res, &r)
+	bin := filepath.Join(wd, "replay.test")
+	env := append(os.Environ(), "GOFLAGS=-mod=mod", "GOPROXY=off", "GOSUMDB=off", "GOTOOLCHAIN=local")
+	build := exec.Command("go", "test", "-c", "-tags", "verif", "-vet=off", "-overlay", ovPath, "-o", bin, "./"+dir)
+	build.Dir = repoDir
+	build.Env = env
+	if out, err := build.CombinedOutput(); err != nil {
+		return nil, fmt.Errorf("go test -c failed: %v: %s", err, oneLine(string(out)))
+	}
+	res := make([]*replayResult, len(cases))
+	sem := make(chan struct{}, 8)
+	done := make(chan struct{})
+	for ci := range cases {
+		go func(ci int) {
+			sem <- struct{}{}
+			defer func() { <-sem; done <- struct{}{} }()
+			c := cases[ci]
+			casePath := filepath.Join(wd, fmt.Sprintf("case%d.json", ci))
+			cj, _ := json.Marshal([]replayCase{c})
+			os.WriteFile(casePath, cj, 0o644)
+			cmd := exec.Command(bin, "-test.run", "^TestVerifReplay$", "-test.v", "-test.timeout", "5m")
+			cmd.Dir = filepath.Join(repoDir, dir)
+			cmd.Env = append(env, "VERIF_REPLAY="+casePath)
+			var outb bytes.Buffer
+			cmd.Stdout = &outb
+			cmd.Stderr = &outb
+			runErr := cmd.Run()
+			for _, line := range strings.Split(outb.String(), "\n") {
+				if strings.HasPrefix(line, "VERIF-CASE ") {
+					var r replayResult
+					if err := json.Unmarshal([]byte(strings.TrimPrefix(line, "VERIF-CASE ")), &r); err == nil {
+						res[ci] = &r
+					}
+				}
 			}
-		}
+			if res[ci] == nil {
+				tail := outb.String()
+				if len(tail) > 1500 {
+					tail = tail[len(tail)-1500:]
+				}
+				res[ci] = &replayResult{Harness: c.Harness, Label: c.Label, Panic: fmt.Sprintf("test binary died (%v): %s", runErr, oneLine(tail))}
+			} else if runErr != nil && res[ci].Panic == "" && res[ci].Done {
+				// the harness returned but the process still died (e.g. a goroutine
+				// of the real code panicked afterwards)
+				tail := outb.String()
+				if len(tail) > 1500 {
+					tail = tail[len(tail)-1500:]
+				}
+				res[ci].Panic = "test binary died after the harness returned: " + oneLine(tail)
+			}
+		}(ci)
 	}
-	crashed := false
-	if len(res) < len(cases) {
-		// a hard crash (fatal error, os.Exit) of the test binary: attribute to the next case
-		tail := outb.String()
-		if len(tail) > 1500 {
-			tail = tail[len(tail)-1500:]
-		}
-		if runErr != nil && len(res) < len(cases) {
-			c := cases[len(res)]
-			res = append(res, &replayResult{Harness: c.Harness, Label: c.Label, Panic: "test binary died: " + oneLine(tail)})
-			crashed = true
-		}
-		if len(res) == 0 {
-			return nil, false, fmt.Errorf("go test produced no results: %v: %s", runErr, oneLine(tail))
-		}
+	for range cases {
+		<-done
 	}
-	return res, crashed, nil
+	return res, nil
 }
